@@ -49,6 +49,10 @@ pub struct ExprCfg {
     pub radix: bool,
     /// random() bounds below 2 allowed
     pub bad_random_bounds: bool,
+    /// hazards (division by zero, signExt, random(0)) placed in unselected ite branches only
+    pub lazy_hazards: bool,
+    /// shift counts from the boundary set {-1, 0, 1, 63, 64, 65, 127, MIN}
+    pub odd_shifts: bool,
 }
 
 #[derive(Clone, Debug)]
@@ -132,6 +136,8 @@ impl Cfg {
                 groups: true,
                 radix: true,
                 bad_random_bounds: false,
+                lazy_hazards: false,
+                odd_shifts: false,
             },
             counter_rebind: false,
             maybe_unbound_refs: false,
@@ -505,6 +511,9 @@ pub fn gen_expr(ch: &mut Ch, depth: u32, env: &ExprEnv) -> Expr {
             if cfg.total && matches!(op, BinOp::Div | BinOp::Rem) {
                 b = nonzero(b);
             }
+            if cfg.odd_shifts && matches!(op, BinOp::Shl | BinOp::Shr) && ch.chance(1, 2) {
+                b = Expr::konst(*ch.choose(&[-1i64, 0, 1, 63, 64, 65, 127, i64::MIN, 6, 70]));
+            }
             Expr::bin(op, a, b)
         }
         2 => {
@@ -512,6 +521,21 @@ pub fn gen_expr(ch: &mut Ch, depth: u32, env: &ExprEnv) -> Expr {
             Expr::un(op, gen_expr(ch, depth - 1, env))
         }
         3 => {
+            if cfg.lazy_hazards && ch.chance(1, 2) {
+                let haz = match ch.upto(4) {
+                    0 => Expr::bin(BinOp::Div, Expr::lit(1), Expr::lit(0)),
+                    1 => Expr::bin(BinOp::Rem, gen_leaf(ch, env), Expr::lit(0)),
+                    2 => Expr::SignExt(Box::new(Expr::lit(1)), Box::new(Expr::lit(2))),
+                    _ => Expr::Random(Box::new(Expr::lit(0))),
+                };
+                let live = gen_expr(ch, depth - 1, env);
+                return if ch.chance(1, 2) {
+                    Expr::Ite(Box::new(Expr::lit(0)), Box::new(haz), Box::new(live))
+                } else {
+                    let c = Expr::lit(ch.range(1, 9) as u64);
+                    Expr::Ite(Box::new(c), Box::new(live), Box::new(haz))
+                };
+            }
             let c = gen_expr(ch, depth - 1, env);
             let a = gen_expr(ch, depth - 1, env);
             let b = gen_expr(ch, depth - 1, env);
